@@ -2,8 +2,8 @@
    Proofs.IsoLazyProofs / IsoMatchProofs / IsoCompileProofs / IsoProofs.  Model: Model.Iso (hand-written, tied to
    chython/algorithms/isomorphism.py and chython/_functions.py by the correspondence of harness/checks/C07.py). *)
 From Coq Require Import ZArith List Bool Permutation.
-From Model Require Import PyBase Stereo Iso IsoStereo.
-From Proofs Require Import StereoProofs IsoLazyProofs IsoMatchProofs IsoCompileProofs IsoProofs IsoExt IsoAuto IsoStereoProofs IsoStereoExt IsoMatchStereo.
+From Model Require Import PyBase Graph Rings Stereo Iso IsoStereo.
+From Proofs Require Import StereoProofs IsoLazyProofs IsoMatchProofs IsoCompileProofs IsoProofs IsoExt IsoAuto IsoStereoProofs IsoStereoExt IsoMatchStereo IsoCC.
 Import ListNotations.
 Open Scope Z_scope.
 
@@ -295,24 +295,7 @@ Theorem C07_get_mapping_global_exact : forall (QA A QB B : Type) (amatch : QA ->
 Proof. exact get_mapping_global_exact. Qed.
 Print Assumptions C07_get_mapping_global_exact.
 
-(* is_equal answers True only for isomorphic graphs: a bijection between ALL atoms that preserves atoms and, both ways, bonds
-   (the converse direction is covered by the brute-force search only) *)
-Theorem C07_is_equal_true_isomorphism_partial : forall (QA A QB B : Type) (amatch : QA -> A -> bool) (bmatch : QB -> B -> bool)
-    (q_atoms : list (Z * QA)) (q_bonds : list (Z * list (Z * QB))) (o_atoms : list (Z * A)) (o_bonds : list (Z * list (Z * B)))
-    (tcomps : list (list Z)),
-  wf_adj q_atoms q_bonds -> wf_adj o_atoms o_bonds -> tcomps_ok A B o_atoms o_bonds tcomps ->
-  is_equal amatch bmatch q_atoms q_bonds o_atoms o_bonds tcomps = Ok true ->
-  exists f : mapping,
-    Permutation (map fst f) (keys q_atoms) /\ Permutation (image f) (keys o_atoms) /\
-    (forall x y, In (x, y) f -> exists qa oa, zget q_atoms x = Some qa /\ zget o_atoms y = Some oa /\ amatch qa oa = true) /\
-    (forall x1 y1 x2 y2, In (x1, y1) f -> In (x2, y2) f ->
-       match bond_get q_bonds x1 x2, bond_get o_bonds y1 y2 with
-       | Some qb, Some ob => bmatch qb ob = true
-       | None, None => True
-       | _, _ => False
-       end).
-Proof. exact is_equal_true_isomorphism. Qed.
-Print Assumptions C07_is_equal_true_isomorphism_partial.
+(* (C07_is_equal_true_isomorphism_partial of the first round is superseded by C07_is_equal_iff_isomorphic below) *)
 
 (* ---------------------------------------------------------------------------------------------------------------
    is_equal <-> isomorphic, both directions.  tcomps_connected: every list of other.connected_components is connected
@@ -608,3 +591,66 @@ Theorem C07_match_stereo_found_embeddings : forall (QA A QB B : Type) (amatch : 
                exists mp, In mp found /\ (forall y, In y (image f) <-> In y (image mp))).
 Proof. exact match_stereo_found_embeddings. Qed.
 Print Assumptions C07_match_stereo_found_embeddings.
+
+(* ---------------------------------------------------------------------------------------------------------------
+   Round 3: other.connected_components is no longer a parameter with hypotheses.  cc_of bonds order = the model of
+   _connected_components (C06's Model.Rings.components_order on the plain graph of the adjacency) for the pop order [order] of
+   the atom set -- ANY order; C06 proves that the result is the partition into connectivity classes.
+   --------------------------------------------------------------------------------------------------------------- *)
+(* the hypotheses of all wrapper theorems above are consequences *)
+Theorem C07_cc_hyps : forall (V W : Type) (atoms : list (Z * V)) (bonds : list (Z * list (Z * W))),
+  wf_adj atoms bonds -> forall order, (forall x, In x order <-> In x (keys bonds)) ->
+  tcomps_ok V W atoms bonds (cc_of bonds order) /\
+  (forall cand y1 y2, In cand (cc_of bonds order) -> In y1 cand -> In y2 cand -> reach bonds y1 y2) /\
+  (forall c, In c (cc_of bonds order) -> c <> []).
+Proof. exact @cc_hyps. Qed.
+Print Assumptions C07_cc_hyps.
+
+(* Python hands the components over as SETS: rearranging the atoms inside every component keeps the hypotheses *)
+Theorem C07_hyps_transfer : forall (V W : Type) (atoms : list (Z * V)) (bonds : list (Z * list (Z * W))) tc1 tc2,
+  Forall2 (fun a b => forall x, In x a <-> In x b) tc1 tc2 -> tcomps_ok V W atoms bonds tc1 -> tcomps_connected W bonds tc1 ->
+  tcomps_ok V W atoms bonds tc2 /\ tcomps_connected W bonds tc2.
+Proof. exact @hyps_transfer. Qed.
+Print Assumptions C07_hyps_transfer.
+
+(* the whole call, NO hypothesis on the components: tc = the model's components for some pop order, each possibly rearranged
+   (the correspondence evaluates exactly this relation, cc_tieb, between the model and what the real code returns) *)
+Theorem C07_get_mapping_global_exact_cc : forall (QA A QB B : Type) (amatch : QA -> A -> bool) (bmatch : QB -> B -> bool)
+    (q_atoms : list (Z * QA)) (q_bonds : list (Z * list (Z * QB))) (o_atoms : list (Z * A)) (o_bonds : list (Z * list (Z * B))),
+  wf_adj q_atoms q_bonds -> wf_adj o_atoms o_bonds ->
+  forall order tc,
+  (forall x, In x order <-> In x (keys o_bonds)) /\ Forall2 (fun a b => forall x, In x a <-> In x b) (cc_of o_bonds order) tc ->
+  exists comps clo, compile_query q_atoms q_bonds = Ok (comps, clo) /\
+    Permutation (concat (map (map fst4) comps)) (keys q_atoms) /\
+    forall scope, exists res,
+      mol_get_mapping amatch bmatch q_atoms q_bonds o_atoms o_bonds tc false scope = Ok res /\
+      NoDup res /\
+      forall f, In f res <-> global_embedding QA A QB B amatch bmatch q_atoms q_bonds o_atoms o_bonds tc comps scope f.
+Proof. exact get_mapping_global_exact_cc. Qed.
+Print Assumptions C07_get_mapping_global_exact_cc.
+
+Theorem C07_is_equal_iff_isomorphic_cc : forall (QA A QB B : Type) (amatch : QA -> A -> bool) (bmatch : QB -> B -> bool)
+    (q_atoms : list (Z * QA)) (q_bonds : list (Z * list (Z * QB))) (o_atoms : list (Z * A)) (o_bonds : list (Z * list (Z * B))),
+  wf_adj q_atoms q_bonds -> wf_adj o_atoms o_bonds ->
+  forall order tc,
+  (forall x, In x order <-> In x (keys o_bonds)) /\ Forall2 (fun a b => forall x, In x a <-> In x b) (cc_of o_bonds order) tc ->
+  exists b, is_equal amatch bmatch q_atoms q_bonds o_atoms o_bonds tc = Ok b /\
+    (b = true <-> exists f, isomorphism QA A QB B amatch bmatch q_atoms q_bonds o_atoms o_bonds f).
+Proof. exact is_equal_iff_isomorphic_cc. Qed.
+Print Assumptions C07_is_equal_iff_isomorphic_cc.
+
+Theorem C07_is_substructure_iff_cc : forall (QA A QB B : Type) (amatch : QA -> A -> bool) (bmatch : QB -> B -> bool)
+    (q_atoms : list (Z * QA)) (q_bonds : list (Z * list (Z * QB))) (o_atoms : list (Z * A)) (o_bonds : list (Z * list (Z * B))),
+  wf_adj q_atoms q_bonds -> wf_adj o_atoms o_bonds ->
+  forall order tc,
+  (forall x, In x order <-> In x (keys o_bonds)) /\ Forall2 (fun a b => forall x, In x a <-> In x b) (cc_of o_bonds order) tc ->
+  forall comps clo, compile_query q_atoms q_bonds = Ok (comps, clo) ->
+  exists b, is_substructure amatch bmatch q_atoms q_bonds o_atoms o_bonds tc = Ok b /\
+    (b = true <-> exists f, global_embedding QA A QB B amatch bmatch q_atoms q_bonds o_atoms o_bonds tc comps None f).
+Proof. exact is_substructure_iff_cc. Qed.
+Print Assumptions C07_is_substructure_iff_cc.
+
+Theorem C07_example_cc :
+  cc_of ex_o_bonds [3; 4; 1; 2] = [[3; 2; 1]; [4]] /\ cc_tieb ex_o_bonds [3; 4; 1; 2] [[1; 2; 3]; [4]] = true.
+Proof. exact example_cc. Qed.
+Print Assumptions C07_example_cc.
